@@ -58,7 +58,7 @@ MANIFEST = {
 RULE_TAGS = ('enum', 'shape', 'kw0', 'optsdef')
 ERR = {'unbalanced': 'EUnbalanced', 'unknown_cpt': 'EUnknownCpt', 'too_many': 'ETooMany', 'missing_node': 'EMissingNode',
        'missing_arg': 'EMissingArg', 'after_named': 'EAfterNamed', 'unknown_param': 'EUnknownParam', 'assigned': 'EAssigned',
-       'index': 'EIndex', 'opts_braces': 'EOptsBraces', 'include': 'EInclude', 'empty_ns': 'EEmptyNs'}
+       'index': 'EIndex', 'opts_braces': 'EOptsBraces', 'include': 'EInclude', 'empty_ns': 'EEmptyNs', 'unknown_kw': 'EUnknownKw'}
 
 
 # ---- Coq literals -------------------------------------------------------------
@@ -117,7 +117,7 @@ SHAPES = ['num', 'suf', 'sym', 'brace', 'quote', 'bsimple']
 POOL = {'num': VAL_NUM, 'suf': VAL_SUF, 'sym': VAL_SYM, 'brace': VAL_BRACE, 'quote': VAL_QUOTE, 'bsimple': VAL_BSIMPLE}
 NAME_SHAPES = ['plain', 'under', 'anon', 'ns', 'ns2']
 NODE_SHAPES = ['num', 'under', 'dotted', 'pin']
-OPTS_DEF = 'l=x, def={x,y}'
+OPTS_DEF = 'l=x, def={x,y}, def=z'
 OPTS = ['', 'right', 'right=2, l={a, b}', 'l=foo, color=blue, size = 1.5 ', 'a=true, b=False, c', 'down, l=a;b, v_=$V_1$',
         'right, right=3, l^={R_{x,y}}', ' ']
 SEPS = [' ', ' ', ' ', '  ', '\t', ', ', ' ,']
@@ -600,7 +600,7 @@ def fingerprint(c, r, rules):
         if e[1].startswith('.') and '.' not in e[1][1:] and e1[1] == e[1][1:]:
             return 'Cpt._netmake1:leading-dot-name-loses-dot'
     for e in c0:
-        if any(k == 'def' for k, _ in e[5]):
+        if any(k == 'def' for k, _ in e[5]) and 'def=[' in str(r.get('s1', '')):
             return 'Opts.format:def-list-printed-as-python-repr'
     for e in c0:
         rule = byclass.get(e[0])
